@@ -399,25 +399,31 @@ impl Property for C07 {
         Ok(())
     }
 
-    fn shrink(&self, sc: &Sc) -> Vec<Sc> {
-        let mut out = Vec::new();
+    fn shrink(&self, sc: &Sc, emit: &mut dyn FnMut(Sc) -> bool) {
+        macro_rules! push {
+            ($e:expr) => {
+                if emit($e) {
+                    return;
+                }
+            };
+        }
         if sc.hists.len() > 1 {
             for i in 0..sc.hists.len() {
                 let mut h = sc.hists.clone();
                 h.remove(i);
-                out.push(Sc { hists: h });
+                push!(Sc { hists: h });
             }
         }
         for (hi, h) in sc.hists.iter().enumerate() {
             for ops in shrink_vec(&h.ops) {
                 let mut s = sc.clone();
                 s.hists[hi].ops = ops;
-                out.push(s);
+                push!(s);
             }
             if h.seed != 0 {
                 let mut s = sc.clone();
                 s.hists[hi].seed = 0;
-                out.push(s);
+                push!(s);
             }
             for (oi, op) in h.ops.iter().enumerate().take(40) {
                 let simpler: Vec<Op> = match op {
@@ -443,11 +449,10 @@ impl Property for C07 {
                 for n in simpler {
                     let mut s = sc.clone();
                     s.hists[hi].ops[oi] = n;
-                    out.push(s);
+                    push!(s);
                 }
             }
         }
-        out
     }
 
     fn classify(&self, _sc: &Sc, _v: &Violation) -> String {
